@@ -165,14 +165,11 @@ func (c *ChunkComposer) RunLoop(reader io.Reader, cb OnCompleteMessage) error {
 			}
 		}
 
-		var neededSize uint32
-		if stream.header.MsgLen <= c.peerChunkSize {
-			neededSize = stream.header.MsgLen
-		} else {
-			neededSize = stream.header.MsgLen - stream.msg.Len()
-			if neededSize > c.peerChunkSize {
-				neededSize = c.peerChunkSize
-			}
+		// 本次chunk的大小：message中还没有收到的部分，并且不超过对端的chunk size
+		// 注意，不能用整个message的大小和chunk size比较：对端可能在一个message的多个chunk之间修改chunk size
+		neededSize := stream.header.MsgLen - stream.msg.Len()
+		if neededSize > c.peerChunkSize {
+			neededSize = c.peerChunkSize
 		}
 
 		if _, err := io.ReadFull(reader, stream.msg.buff.ReserveBytes(int(neededSize))); err != nil {
